@@ -457,12 +457,8 @@ def generate():
         dpath = "%s/%s/delay.rs" % (SRC, fam)
         d = parse_delay_arms(flat(dpath), dpath, "try_%s_delay" % unit)
         fams[fam] = (b, g, d)
-    # the order in which lib.rs asks: baseline, gain, delay, each with `?` -- any failure is an error
-    lib = flat("physics/src/lib.rs")
-    need(lib, "physics/src/lib.rs", [
-        r"let baseline = try_wire_baseline\(run_number, wire_position\)\?; let gain = try_wire_gain\(run_number, wire_position\)\?; let delay = try_wire_delay\(run_number\)\?;",
-        r"let baseline = try_pad_baseline\(run_number, pad_position\)\?; let gain = try_pad_gain\(run_number, pad_position\)\?; let delay = try_pad_delay\(run_number\)\?;",
-        r"\.skip\(delay\)", r"f64::from\(i32::from\(v\) - i32::from\(baseline\)\) \* gain"])
+    # how lib.rs uses the three lookups (order, `?`, skip(delay), widened subtraction) is modelled in Event/Event.v and
+    # tied by the differential run, which names a failing input; it is deliberately not a shape check here
     runs = arm_points(*[a for f in fams.values() for a in (f[0][1], f[1][1], f[2])])
     dumps = dump_runs(runs)
     stats = dict(total=0, off=0, far=0, seen=dict(wires=set(), pads=set()))
